@@ -37,7 +37,7 @@ type profile struct {
 
 func defaultProfile() profile {
 	return profile{
-		encsMain: []string{"I32"}, encsSmall: []string{"String16", "VarEnc", "Type", "TypeOff", "TypeID", "Bytes3", "U64", "I8", "Int"},
+		encsMain: []string{"I32"}, encsSmall: []string{"String16", "VarEnc", "VarEncH", "VarEncH1", "Type", "TypeOff", "TypeID", "Bytes3", "LenBytes", "U64", "I8", "Int"},
 		insts:  []string{h.InstFresh, h.InstUnm, h.InstProto},
 		needQs: true, nilVals: true,
 		quickIDk: 4, quickScafK: 3, thoroughIDk: 6, thoroughScafK: 3, u85k: 3,
@@ -337,7 +337,7 @@ func buildPhases(r *h.Run, p profile) []phase {
 				// String16 and VarEnc (variable width) on sets of <= 3 keys, the
 				// remaining encoders on sets of <= 2 keys
 				for _, e := range p.encsSmall {
-					if e == "String16" || e == "VarEnc" || strings.Contains(e, "L:") || sc.NVar() <= 2 {
+					if e == "String16" || strings.HasPrefix(e, "VarEnc") || strings.Contains(e, "L:") || sc.NVar() <= 2 {
 						u.encs = append(u.encs, e)
 					}
 				}
